@@ -275,22 +275,21 @@ func stubJoin(p *path, _ *frame, a []value) value {
 	return Str{out}
 }
 
+// strings.Index: the position of the first occurrence is decided by forking (concrete result), so
+// that callers can slice with it.
 func stubIndex(p *path, _ *frame, a []value) value {
 	s, sub := a[0].(Str), a[1].(Str)
-	r := p.tc.BV(64, ^uint64(0))
-	for i := len(s.b) - len(sub.b); i >= 0; i-- {
-		r = p.tc.Ite(p.matchAt(s, i, sub), p.tc.BV(64, uint64(i)), r)
-	}
-	return r
+	return p.tc.BV(64, uint64(int64(p.firstMatch(s, 0, sub))))
 }
 
 func stubLastIndex(p *path, _ *frame, a []value) value {
 	s, sub := a[0].(Str), a[1].(Str)
-	r := p.tc.BV(64, ^uint64(0))
-	for i := 0; i+len(sub.b) <= len(s.b); i++ {
-		r = p.tc.Ite(p.matchAt(s, i, sub), p.tc.BV(64, uint64(i)), r)
+	for i := len(s.b) - len(sub.b); i >= 0; i-- {
+		if p.branch(p.matchAt(s, i, sub)) {
+			return p.tc.BV(64, uint64(i))
+		}
 	}
-	return r
+	return p.tc.BV(64, ^uint64(0))
 }
 
 func stubIndexByte(p *path, _ *frame, a []value) value {
